@@ -3,6 +3,7 @@
 // Contracts for govc (contract-based deductive verification); comments only.
 package resources
 
+// ===== section owned by the C20 helper (SumResources) =====
 // (library models for resource.Quantity.Add / DeepCopy and v1.ResourceList.DeepCopy live in
 //  pkg/podgroupcontroller/controllers/resources/zz_verif_contracts.go; they are global)
 
@@ -21,6 +22,104 @@ package resources
 //@   ensures [nonnil] result != nil
 //@   ensures [keys] forall k v1.ResourceName :: (k in result) == ((k in left) || (k in right))
 //@   ensures [sum] forall k v1.ResourceName :: result[k] == left[k] + right[k]
+//@ end
+
+// ===== end of C20 section; below: C19 (helper gpureq) =====
+// ---- the three parsers as deterministic functions of the annotation string (shared by the C19
+// contracts of admission, binder and scheduler: every component that parses the SAME string sees
+// the SAME (value, err)) ---------------------------------------------------------------------
+//@ define pfVal(s string) real = tuple0(strconv.ParseFloat(s, 64))
+//@ define pfOk(s string) bool = tuple1(strconv.ParseFloat(s, 64)) == nil
+//@ define puVal(s string) int = tuple0(strconv.ParseUint(s, 10, 64))
+//@ define puOk(s string) bool = tuple1(strconv.ParseUint(s, 10, 64)) == nil
+//@ define piVal(s string) int = tuple0(strconv.ParseInt(s, 10, 64))
+//@ define piOk(s string) bool = tuple1(strconv.ParseInt(s, 10, 64)) == nil
+//@ define maxInt64() int = 9223372036854775807
+
+// C19: "Every GPU request that admission accepts ... denotes a finite positive quantity".
+// a well-formed fraction: parses, finite, 0 < f < 1
+//@ define wfFraction(s string) bool = pfOk(s) && isfinite(pfVal(s)) && fval(pfVal(s)) > 0.0 && fval(pfVal(s)) < 1.0
+// a well-formed positive count / amount of memory: a decimal integer n with 1 <= n <= MaxInt64
+// (scheduler and binder read it with ParseInt(…, 10, 64))
+//@ define wfPosInt(s string) bool = piOk(s) && 1 <= piVal(s) && piVal(s) <= maxInt64()
+
+//@ define hasFrac(pod *v1.Pod) bool = constants.GpuFraction in pod.Annotations
+//@ define hasMem(pod *v1.Pod) bool = constants.GpuMemory in pod.Annotations
+//@ define hasCount(pod *v1.Pod) bool = constants.GpuFractionsNumDevices in pod.Annotations
+//@ define fracStr(pod *v1.Pod) string = pod.Annotations[constants.GpuFraction]
+//@ define memStr(pod *v1.Pod) string = pod.Annotations[constants.GpuMemory]
+//@ define countStr(pod *v1.Pod) string = pod.Annotations[constants.GpuFractionsNumDevices]
+
+// C19: the binder materialises the same values: the accessor returns exactly the number the
+// annotation string denotes, or an error.
+//@ func GetGPUFraction
+//@   props C19
+//@   ieee
+//@   requires pod != nil
+//@   pure
+//@   ensures [ok] (result1 == nil) == (hasFrac(pod) && pfOk(fracStr(pod)))
+//@   ensures [value] result1 == nil ==> result0 == pfVal(fracStr(pod))
+//@   ensures [zero-on-error] result1 != nil ==> result0 == 0.0
+//@ end
+
+//@ func GetGPUMemory
+//@   props C19
+//@   requires pod != nil
+//@   pure
+//@   ensures [ok] (result1 == nil) == (hasMem(pod) && piOk(memStr(pod)))
+//@   ensures [value] result1 == nil ==> result0 == piVal(memStr(pod))
+//@   ensures [zero-on-error] result1 != nil ==> result0 == 0
+//@ end
+
+// C19: number of fractional devices, default 1 for a fraction / memory request without the annotation.
+//@ func GetNumGPUFractionDevices
+//@   props C19
+//@   requires pod != nil
+//@   assume fractionDevicesAnnotationNotFound != nil
+//@   note the sentinel error is a package variable initialised once with fmt.Errorf(...) and never reassigned
+//@   pure
+//@   ensures [ok] (result1 == nil) == ite(hasCount(pod), piOk(countStr(pod)), hasFrac(pod) || hasMem(pod))
+//@   ensures [value] result1 == nil ==> result0 == ite(hasCount(pod), piVal(countStr(pod)), 1)
+//@   ensures [zero-on-error] result1 != nil ==> result0 == 0
+//@   ensures [not-found-sentinel] !hasCount(pod) && !hasFrac(pod) && !hasMem(pod) ==> result1 == fractionDevicesAnnotationNotFound
+//@ end
+
+//@ func RequestsGPUFraction
+//@   props C19
+//@   requires pod != nil
+//@   pure
+//@   ensures result == (hasFrac(pod) || hasMem(pod))
+//@ end
+
+// assumed library contract (errors.Is has no body in the loaded program): reflexivity only.
+//@ func errors.Is
+//@   trusted
+//@   note library function; only reflexivity is assumed: errors.Is(e, e) is true (also for nil, nil)
+//@   pure
+//@   ensures err == target ==> result
+//@ end
+
+// the converse case (a parse error is not the sentinel) would need "fmt.Errorf without %w does not
+// wrap the sentinel", which the engine does not model: only the clauses below are claimed.
+//@ func IsMultiFraction
+//@   props C19
+//@   requires pod != nil
+//@   assume fractionDevicesAnnotationNotFound != nil
+//@   pure
+//@   ensures [absent] !hasCount(pod) ==> result1 == nil && result0 == (false)
+//@   ensures [present-ok] hasCount(pod) && piOk(countStr(pod)) ==> result1 == nil && result0 == (piVal(countStr(pod)) > 1)
+//@   ensures [value] result0 ==> hasCount(pod) && piOk(countStr(pod)) && piVal(countStr(pod)) > 1
+//@ end
+
+//@ func RequestsWholeGPU
+//@   props C19
+//@   requires pod != nil
+//@   pure
+//@   loop 1
+//@     invariant -1 <= rangeindex && rangeindex < len(pod.Spec.Containers)
+//@     invariant forall j int :: 0 <= j && j <= rangeindex ==> !(constants.NvidiaGpuResource in pod.Spec.Containers[j].Resources.Requests) && !(constants.NvidiaGpuResource in pod.Spec.Containers[j].Resources.Limits)
+//@     decreases len(pod.Spec.Containers) - rangeindex
+//@   ensures result == (exists i int :: 0 <= i && i < len(pod.Spec.Containers) && (constants.NvidiaGpuResource in pod.Spec.Containers[i].Resources.Requests || constants.NvidiaGpuResource in pod.Spec.Containers[i].Resources.Limits))
 //@ end
 
 // ---- helpers of the scheduler's pod constructor: safety contracts only (C10/C19 callers need the frame) ----
